@@ -180,6 +180,55 @@ func init() {
 			}
 			c12EmitSegs(c, kind, o, roots, segs, last, plain, "random")
 		}
+		// ---- (a3) header / section size limits ---------------------------------------------------
+		// many roots so that the CARv1 header is larger than a small MaxAllowedSectionSize (which
+		// must not matter for the header), a MaxAllowedHeaderSize of exactly the header size
+		// (resumable) and of one byte less (every reopen refused: outside the theorem's hypothesis
+		// "header <= MaxAllowedHeaderSize"; model and implementation must agree on the refusal)
+		{
+			r := c.R.Fork()
+			var roots []cid.Cid
+			for j := 0; j < 40; j++ {
+				roots = append(roots, mkCid(1, 0x71, mh.SHA2_256, -1, r.Bytes(8)))
+			}
+			hlen := uint64(len(c12EncHeader(roots))) - uint64(uvarintLen(uint64(len(c12EncHeader(roots)))-2)) // bytes after the length varint
+			if uint64(uvarintLen(hlen))+hlen != uint64(len(c12EncHeader(roots))) {
+				panic("header length")
+			}
+			puts := genBlocks(r, 2, genOpts{identity: false, maxData: 40})
+			smallS := defaultWOpts
+			smallS.maxS = 1 << 10
+			smallSpad := smallS
+			smallSpad.dpad, smallSpad.ipad, smallSpad.codec = 7, 1, 0x0400
+			exactH := defaultWOpts
+			exactH.maxH = hlen
+			bothExact := defaultWOpts
+			bothExact.maxH, bothExact.maxS = hlen, 1<<10
+			shortH := defaultWOpts
+			shortH.maxH = hlen - 1
+			v1small := smallS
+			v1small.v1 = true
+			type lim struct {
+				o    wOpts
+				what string
+			}
+			for _, l := range []lim{{smallS, "limits:section<header"}, {smallSpad, "limits:section<header"}, {v1small, "limits:section<header-v1"},
+				{exactH, "limits:header=exact"}, {bothExact, "limits:header=exact,section<header"}, {shortH, "limits:header=exact-1"}} {
+				for _, kind := range []uint64{0, 1} {
+					plain, ok := c12PlainFinal(c.Work, kind, l.o, roots, puts)
+					if !ok {
+						continue
+					}
+					for ci, cuts := range c12Interleavings(len(puts), 2) {
+						if len(cuts) == 0 || (len(cuts) == 2 && ci%3 != 0 && !c.Thorough) {
+							continue
+						}
+						segs, last := c12BuildSegs(puts, cuts)
+						c12EmitSegs(c, kind, l.o, roots, segs, last, plain, l.what)
+					}
+				}
+			}
+		}
 		// ---- (b) mismatching reopen ------------------------------------------------------------
 		nBase := 6 * c.Scale
 		for i := 0; i < nBase; i++ {
